@@ -88,6 +88,12 @@ pub fn families() -> Vec<(String, Vec<u8>, Vec<usize>)> {
         ("label-run-to-buffer-end-after-pointer-2", vec![2, 0xC0, 0x00], vec![1]),
         ("label-run-ends-exactly", vec![1, b'a', 1, b'b'], vec![0, 2]),
         ("pointer-to-pointer", vec![1, b'a', 0, 0xC0, 0x00, 0xC0, 0x03], vec![5]),
+        // self-overlapping walks: the label reached through the pointer covers the pointer's own bytes
+        ("overlap label-ends-on-pointer-byte", vec![0xAA, 1, 0xC0, 1, b'a', 0], vec![2]),
+        ("overlap label-covers-pointer", vec![3, b'x', 0xC0, 0x00, 0, 0], vec![2]),
+        ("overlap label-covers-pointer-2", vec![0, 2, 0xC0, 1, 1, b'z', 0], vec![2, 1]),
+        ("overlap pointer-low-byte-is-length", vec![1, 0xC0, 2, b'p', b'q', 0xC0, 0x00, 0], vec![5]),
+        ("overlap chain-through-own-bytes", vec![1, b'a', 0xC0, 0, 0xC0, 2, 0], vec![4]),
         ("reserved-01", vec![0x40, 0], vec![0]),
         ("reserved-10", vec![0x80, 0], vec![0]),
         ("reserved-01-after-label", vec![1, b'a', 0x7F, 0], vec![0]),
@@ -131,9 +137,9 @@ pub fn run(a: &Args) {
     }
     // seeded random buffers with pointer-heavy content
     let mut rng = StdRng::seed_from_u64(a.seed);
-    let n = if a.tier == "thorough" { 20000 } else { 3000 };
+    let n = if a.tier == "thorough" { 60000 } else { 12000 };
     for _ in 0..n {
-        let len = rng.gen_range(1..48usize);
+        let len = if rng.gen_range(0..3) == 0 { rng.gen_range(1..48usize) } else { rng.gen_range(3..12usize) };
         let mut b = Vec::with_capacity(len);
         while b.len() < len {
             match rng.gen_range(0..10) {
